@@ -30,10 +30,6 @@ MODEL_VO = ["Lib/PyBytes.vo", "Gen/GenRegex.vo", "Model/Receiver.vo", "Model/Url
             "Model/ChanSeq.vo"]
 
 
-def is_expect_reset(case, res):
-    return bool(res.get("reset"))
-
-
 def run(ctx):
     ctx.translate({"GenRegex"})
     ctx.gate()
@@ -60,8 +56,12 @@ def run(ctx):
         nover = 0
         for c in all_cases:
             total = sum(len(r) for r in c["reads"])
-            # byte-wise runs of very long streams are quadratic in the model: keep them for thorough
-            if len(c["reads"]) > (20000 if thorough else 3000):
+            # the model prints every carry field after every read and its regex
+            # matcher costs ~65 us per byte of a header line: bound the volume
+            # (the search below runs every case on the real code regardless)
+            if len(c["reads"]) * total > (60000000 if thorough else 6000000):
+                continue
+            if total > (300000 if thorough else 70000) and c["kind"].startswith("head-terminated"):
                 continue
             cases.append(("chan", c["mh"], c["mb"], c["reads"], {"stream": "oversize:" + c["kind"].rstrip("+-0123456789")}))
             nover += 1
@@ -101,10 +101,7 @@ def run(ctx):
                 codes[r["code"]] = codes.get(r["code"], 0) + 1
         nontrivial.add((c["kind"], c["mh"], c["mb"], c["recv"], len(c["prefix_paths"])))
         if bad:
-            if is_expect_reset(c, res):
-                kf_seen.setdefault("kf_c06_expect_reset", (c, res, bad))
-            else:
-                failures.append((c, res, bad))
+            failures.append((c, res, bad))
     ngen = 2500 if thorough else 350
     for c in L.gen_generic(rng, ngen):
         res = L.drive(c["mh"], c["mb"], c["reads"])
@@ -119,10 +116,7 @@ def run(ctx):
             nontrivial.add(hashlib.sha1(b"".join(c["reads"]) + bytes([c["recv"] % 251])).hexdigest())
         if bad:
             c = dict(c, prefix_paths=[], expect=("generic",))
-            if is_expect_reset(c, res):
-                kf_seen.setdefault("kf_c06_expect_reset", (c, res, bad))
-            else:
-                failures.append((c, res, bad))
+            failures.append((c, res, bad))
 
     def replay_of(c, res, bad):
         stream = b"".join(c["reads"])
